@@ -278,6 +278,7 @@ func runC16(x *X) *Violation {
 	}
 	// interleave the clients' programs
 	pos := make([]int, len(w.Tasks))
+	extMaps := map[int]z.Schema{}
 	extendedBy := map[int]map[int]bool{} // base live index -> set of clients that extended a derivative
 	cbid := 0
 	for {
@@ -340,7 +341,7 @@ func runC16(x *X) *Violation {
 			}
 		}
 		x.R.InOp = true
-		var builderPanic string
+		var builderPanic, extArgBad string
 		func() {
 			defer func() {
 				if p := recover(); p != nil {
@@ -375,13 +376,28 @@ func runC16(x *X) *Violation {
 				for k, v := range src.m.fields {
 					m.fields[k] = v
 				}
-				ext := z.Schema{}
+				// one Schema value per extension, passed to every Extend that names it (an application-wide
+				// `var audit = z.Schema{...}`): Extend must not write into, or keep, its argument
+				ext := extMaps[ei]
+				if ext == nil {
+					ext = z.Schema{}
+					for _, f := range w.Schemas[ei].Fields {
+						ext[f.Key] = objs[strconv.Itoa(ei)+"/"+f.Key]
+					}
+					extMaps[ei] = ext
+				}
 				for _, f := range w.Schemas[ei].Fields {
-					o := objs[strconv.Itoa(ei)+"/"+f.Key]
-					ext[f.Key] = o
-					m.fields[f.Key] = o
+					m.fields[f.Key] = objs[strconv.Itoa(ei)+"/"+f.Key]
 				}
 				live = append(live, &c16live{real: src.real.Extend(ext), m: m})
+				if len(ext) != len(w.Schemas[ei].Fields) {
+					extArgBad = fmt.Sprintf("%s: the Schema value passed to Extend had %d entries before the call and has %d after it (%v)", desc, len(w.Schemas[ei].Fields), len(ext), sortedKeys(ext))
+				}
+				for _, f := range w.Schemas[ei].Fields {
+					if ext[f.Key] != objs[strconv.Itoa(ei)+"/"+f.Key] {
+						extArgBad = fmt.Sprintf("%s: entry %q of the Schema value passed to Extend was replaced", desc, f.Key)
+					}
+				}
 			case "merge":
 				oi := op.Schema % len(live)
 				other := live[oi]
@@ -438,6 +454,9 @@ func runC16(x *X) *Violation {
 		}()
 		x.R.InOp = false
 		x.Ops++
+		if extArgBad != "" {
+			return &Violation{Class: "C16/extend-modified-its-argument", Detail: extArgBad}
+		}
 		if builderPanic != "" {
 			return &Violation{Class: "C16/builder-call-panicked op=" + op.Arg, Detail: fmt.Sprintf("step %q: %s", desc, builderPanic)}
 		}
